@@ -51,21 +51,21 @@ package atree
 //@ pred digCoh(bd *basicDigester) = bd.blake3Hash == emptyBlake3Hash ||
 //@      (forall w :: 0 <= w && w < 4 ==> bd.blake3Hash[w] == be64(b3(bd.msg), 8 * w))
 
-//@ func (bd *basicDigester) Reset()  serves C04
+//@ func (bd *basicDigester) Reset()  serves C02 C04 C12
 //@   ensures cleanDigester(bd)
 //@   modifies bd.circleHash64, bd.blake3Hash, bd.msg
 
-//@ func putDigester(e)  serves C04
+//@ func putDigester(e)  serves C02 C04 C12
 //@   requires e != nil
 //@   ensures is(e, *basicDigester) ==> cleanDigester(as(e, *basicDigester))
 //@   modifies basicDigester.circleHash64, basicDigester.blake3Hash, basicDigester.msg
 
-//@ func getBasicDigester() (bd)  serves C04
+//@ func getBasicDigester() (bd)  serves C02 C04 C12
 //@   trusted "pool invariant: sync.Pool only ever holds digesters passed to putDigester (whose post-condition is cleanDigester) or created by New (zero value)"
 //@   ensures bd != nil && cleanDigester(bd)
 //@   modifies alloc
 
-//@ func (bdb *basicDigesterBuilder) Digest(hip, value) (d, err)  serves C04 C18
+//@ func (bdb *basicDigesterBuilder) Digest(hip, value) (d, err)  serves C02 C04 C12 C18
 //@   requires hip != nil
 //@   ensures bdb.k0 == 0 ==> err != nil && isFatal(err)
 //@   ensures err == nil ==> is(d, *basicDigester) && as(d, *basicDigester).blake3Hash == emptyBlake3Hash &&
@@ -73,7 +73,7 @@ package atree
 //@   ensures err != nil ==> categorised(err)
 //@   modifies basicDigester.circleHash64, basicDigester.blake3Hash, basicDigester.msg, basicDigester.scratch, alloc
 
-//@ func (bd *basicDigester) Digest(level) (dg, err)  serves C04
+//@ func (bd *basicDigester) Digest(level) (dg, err)  serves C02 C04 C12
 //@   requires digCoh(bd)
 //@   ensures level >= 4 ==> err != nil
 //@   ensures level == 0 ==> err == nil && dg == bd.circleHash64
